@@ -59,6 +59,9 @@ def build_msg(m):
         for tok in m["pay"].split("|"):
             k, v = tok.split("=", 1)
             msg[k] = "\ud800" if v == "BADENC" else v
+    if m.get("pdn"):
+        # PossDupFlag spelled out as "N": an ordinary first transmission
+        msg[FTag.PossDupFlag] = "N"
     if m.get("ost0"):
         # the application itself supplies OrigSendingTime (a PossResend of an earlier attempt)
         msg[FTag.OrigSendingTime] = "20200101-00:00:00.000"
@@ -141,7 +144,7 @@ class Session:
             if not ev["up"] and ep.writer is not None:
                 ep.writer.fail_drain = ConnectionResetError
             try:
-                exc = ep.send(build_msg(dict(ev["m"], ost0=bool(rev["m"].get("ost0")))))
+                exc = ep.send(build_msg(dict(ev["m"], ost0=bool(rev["m"].get("ost0")), pdn=bool(rev["m"].get("pdn")))))
             finally:
                 if ep.writer is not None:
                     ep.writer.fail_drain = None
